@@ -106,6 +106,60 @@ def gen(tier, seed):
                             assert (int.from_bytes(o.poly1305(bytes.fromhex(k), msg), 'little') - s) % (1 << 128) == t % (1 << 128)
                             yield from emit(rng, k, rcls, msg, 'directed-acc-%s' % ('low' if t < 10 else 'p-k'), [('whole', [len(msg)]), ('bytes', [1] * len(msg))])
                             break
+    # accumulator values with extreme 26-bit limb patterns (all-ones limbs make the carries of the final reduction ripple)
+    pats = [0, 1, 2, 0x3ffffff, 0x3fffffe, 0x3fffffb, 0x2000000]
+    for rcls in ('r1', 'r2', 'rnd', 'rnd', 'rmax'):
+        r = {'r1': 1, 'r2': 2, 'rmax': CLAMP}.get(rcls) or (int.from_bytes(rng.bytes(16), 'little') & CLAMP)
+        if r == 0:
+            continue
+        rinv = pow(r, P - 2, P)
+        for _ in range(4000 if thorough else 500):
+            t = 0
+            for i in range(5):
+                c = rng.below(9)
+                limb = rng.below(1 << 26) if c >= 7 else pats[c]
+                t |= limb << (26 * i)
+            t %= P
+            s_ = rng.choice([0, ones, rng.below(1 << 128)])
+            k = rkey(r, s_)
+            for _try in range(40):
+                pre = rng.bytes(16 * rng.rng(0, 3))
+                acc = 0
+                for i in range(0, len(pre), 16):
+                    acc = (acc + int.from_bytes(pre[i:i + 16] + b'\x01', 'little')) * r % P
+                m = (t * rinv - acc) % P
+                if (1 << 128) <= m < (2 << 128):
+                    msg = pre + (m - (1 << 128)).to_bytes(16, 'little')
+                    yield from emit(rng, k, rcls, msg, 'directed-limb-pattern', [('whole', [len(msg)])])
+                    break
+    # final addition of s: word sums of exactly 0xffffffff with a carry coming in from below, and tags of special shape
+    for _ in range(600 if thorough else 120):
+        rr = int.from_bytes(rng.bytes(16), 'little') & CLAMP
+        msg = rng.bytes(rng.choice([1, 16, 17, 32, 37, 64]))
+        acc = 0
+        for i in range(0, len(msg), 16):
+            acc = (acc + int.from_bytes(msg[i:i + 16] + b'\x01', 'little')) * rr % P
+        h = acc & ones
+        hw = [(h >> (32 * i)) & 0xffffffff for i in range(4)]
+        variants = []
+        w = [(-hw[0]) & 0xffffffff, 0xffffffff - hw[1], 0xffffffff - hw[2], rng.below(1 << 32)]       # carry ripples through words 1 and 2
+        variants.append(w)
+        variants.append([(-hw[0]) & 0xffffffff, 0xffffffff - hw[1], rng.below(1 << 32), rng.below(1 << 32)])
+        variants.append([rng.below(1 << 32), (-hw[1]) & 0xffffffff, 0xffffffff - hw[2], 0xffffffff - hw[3]])
+        variants.append([(-hw[0]) & 0xffffffff, 0xffffffff - hw[1], 0xffffffff - hw[2], 0xffffffff - hw[3]])  # tag = 0 with carry out
+        for tgt in (0, 1, ones, 1 << 32, 1 << 64, 1 << 96, (1 << 64) - 1):
+            sv = (tgt - h) & ones
+            variants.append([(sv >> (32 * i)) & 0xffffffff for i in range(4)])
+        for w in variants:
+            sv = sum(x << (32 * i) for i, x in enumerate(w))
+            yield from emit(rng, rkey(rr, sv), 'pad-carry', msg, 'directed-pad-carry', [('whole', [len(msg)])])
+    # RFC 8439 A.3 vectors (wrap-around cases), as published
+    A3 = [('00' * 32, '00' * 64), ('02' + '00' * 31, 'ff' * 16), ('02' + '00' * 15 + 'ff' * 16, '02' + '00' * 15),
+          ('01' + '00' * 31, 'ff' * 16 + 'f0' + 'ff' * 15 + '11' + '00' * 15), ('01' + '00' * 31, 'ff' * 16 + 'fb' + 'fe' * 15 + '01' * 16),
+          ('02' + '00' * 31, 'fd' + 'ff' * 15), ('01' + '00' * 7 + '04' + '00' * 23, 'e33594d7505e43b9' + '00' * 8 + '3394d7505e4379cd01' + '00' * 23 + '01' + '00' * 15),
+          ('01' + '00' * 7 + '04' + '00' * 23, 'e33594d7505e43b9' + '00' * 8 + '3394d7505e4379cd01' + '00' * 7)]
+    for kk, mm in A3:
+        yield from emit(rng, kk, 'rfc-a3', bytes.fromhex(mm), 'rfc-a3')
     # random long messages
     for _ in range(300 if thorough else 30):
         n = rng.rng(81, 4096)
